@@ -142,6 +142,10 @@ struct Cfg {
     /// Two stages; the second one is stacked on the first by a `Stack` token
     /// after the first has been polled (it must be a dynamic adapter value).
     late_stack: bool,
+    /// With `late_stack`: the `Stack` token does not drain the chain first, so
+    /// the lower adapter may be in the middle of an input item (one of two
+    /// diffs handed out, the other one parked) when the next stage is built on it.
+    stack_mid_item: bool,
     /// Run the same chain on the plain flavour next to the batched one and
     /// compare the flattened outputs (C13).
     twin: bool,
